@@ -82,9 +82,11 @@ def check(spec):
         target, kw, want = spec["callee"], spec["keyword"], spec.get("value")
         for s in ast.walk(fdef):
             if isinstance(s, ast.Call) and _callee_name(s) == target:
+                if spec.get("arg_contains") and not (s.args and spec["arg_contains"] in ast.unparse(s.args[0])):
+                    continue
                 n += 1
                 vals = [ast.unparse(k.value) for k in s.keywords if k.arg == kw]
-                ok = bool(vals) and (want is None or _norm(vals[0]) == _norm(want))
+                ok = (bool(vals) and (want is None or _norm(vals[0]) == _norm(want))) or (not vals and spec.get("missing_ok", False))
                 out.append(_ob(mod.path, qual, kind, n, s.lineno, "call of %s passes %s=%s (found: %s)" % (target, kw, want if want is not None else "<given>", vals[0] if vals else "missing"), ok))
         if n == 0:
             out.append(_ob(mod.path, qual, kind, 1, fdef.lineno, "expected a call of %s in %s (anchor lost)" % (target, qual), False))
@@ -104,6 +106,19 @@ def check(spec):
         other = _fn(mod, spec["other"])
         a, b = _steps(fdef), _steps(other)
         out.append(_ob(mod.path, qual, kind, 1, fdef.lineno, "%s and %s perform the same self._set_* / build steps in the same order (%s vs %s)" % (qual, spec["other"], a, b), a == b and len(a) > 0))
+    elif kind == "same-branch":
+        # the branch guarded by the given test is textually identical in two methods (hand-duplicated code that must stay in step)
+        other = _fn(mod, spec["other"])
+        want = _norm(spec["test"])
+
+        def branch(fd):
+            for node in ast.walk(fd):
+                if isinstance(node, ast.If) and ast.unparse(node.test) == want:
+                    return "\n".join(ast.unparse(b) for b in node.body), node.lineno
+            return None, fd.lineno
+        a, la = branch(fdef)
+        b, lb = branch(other)
+        out.append(_ob(mod.path, qual, kind, 1, la, "the branch `%s` of %s is identical to the one of %s" % (spec["test"], qual, spec["other"]), a is not None and a == b))
     else:
         raise ValueError("unknown structural kind " + kind)
     return out
